@@ -45,6 +45,9 @@ def instances(tier):
         for hist in ("two-targets", "target-then-rest"):
             out.append(dict(id="%s-%s-N2" % (hist, fam), family=fam, N=2, history=hist,
                             budget=dict(wall_s=80 if tier == "quick" else 600, max_paths=4000 if tier == "quick" else 40000)))
+    for fam in (("euler",) if tier == "quick" else ("euler", "rk4", "sympl_euler")):
+        out.append(dict(id="shallow-copies-%s-N2" % fam, family=fam, N=2, history="shallow-copies",
+                        budget=dict(wall_s=80 if tier == "quick" else 600, max_paths=4000 if tier == "quick" else 40000)))
     # runs that monitor events: the real event section of integrate (roll-back and re-recording of steps, buffer growth) with the events oracle
     for fam, evs, dense in ((("euler", "n", False), ("euler", "nn", True)) if tier == "quick" else (("euler", "n", False), ("euler", "nn", True), ("rk4", "nn", False), ("sympl_euler", "n", True))):
         out.append(dict(id="events-%s-%s-%s-N2" % (fam, evs, "dense" if dense else "nodense"), family=fam, N=2, history="events", events=list(evs), dense=dense,
@@ -85,6 +88,30 @@ def scenario(c, inst):
             c.check("c03.first_state_is_y0", c.all([c.eq(u, v) for u, v in zip(flat(c, a.y[0]), y0)]))
             spans.segment_checks(c, "c03", a, 0, t0, tf)
             spans.pairing_checks(c, "c03", a, cb)
+            return
+        if hist == "shallow-copies":
+            # scenarios branched from one initial condition: shallow copies of the system taken BEFORE the first integration, each then
+            # integrated with its own step - every system keeps its own ordered grid from t0 to tf
+            import copy
+            b = copy.copy(a)
+            g = c.real("g")
+            c.assume(absval(c, g) >= 1.0 / 64)
+            c.assume(absval(c, g) <= 256)
+            c.assume(span <= inst["N"] * absval(c, g))
+            b.dt = g
+            cb_a = spans.cap_callback(c, cap, kind)
+            st, r = run(a.integrate, callback=cb_a)
+            if st != "ok":
+                return
+            snap_t, snap_y = list(a.t), [list(flat(c, a.y[i])) for i in range(len(a.t))]
+            st, r = run(b.integrate, callback=spans.cap_callback(c, cap, kind))
+            if st != "ok":
+                return
+            c.case()
+            same = len(a.t) == len(snap_t) and c.all([c.all([c.eq(a.t[i], snap_t[i])] + [c.eq(u, v) for u, v in zip(flat(c, a.y[i]), snap_y[i])]) for i in range(len(snap_t))])
+            c.check("c03.copies.integrating_a_copy_leaves_the_other_systems_rows_alone", same, info=dict(rows_before=len(snap_t), rows_after=len(a.t)))
+            spans.segment_checks(c, "c03.copies.first", a, 0, t0, tf)
+            spans.segment_checks(c, "c03.copies.second", b, 0, t0, tf)
             return
         # several integrate(t) calls: targets are arbitrary reals within reach
         T1 = c.real("T1")
